@@ -422,7 +422,7 @@ def recorder_impls(crate):
     return out
 
 
-def recorder_forward(chk, rule, fn, through=("Deref::deref",), args_from=1, allow_extra_calls=None, same_trait="Recorder"):
+def recorder_forward(chk, rule, fn, through=("Deref::deref",), args_from=1, allow_extra_calls=None, same_trait="Recorder", arg_through=None, expect_sites=None):
     """fn (a Recorder method) calls the same-named Recorder method exactly once per inner recorder
     (call site count 1 unless on a loop), arguments = its own parameters in order."""
     name = fn.name
@@ -438,7 +438,18 @@ def recorder_forward(chk, rule, fn, through=("Deref::deref",), args_from=1, allo
         sy = sy_cache.setdefault(c.fn.path, Sym(c.fn))
         for i in range(1, len(c.args)):
             s = strip_sym(sy.operand(c.args[i]))
+            if arg_through and i in arg_through:
+                s0 = s
+                s = strip_sym(s)
+                if s[0] == "call" and sym_is_call(s, *arg_through[i]):
+                    # transformer(self, original-arg) or transformer(original-arg)
+                    s = strip_sym(s[2][-1])
+                elif arg_through.get(("required", i)):
+                    return chk.ob(rule, where, False, f"argument {i} is {sym_str(s0)}: not passed through {arg_through[i]}", c.loc())
+            s = sym_through(s, "Clone::clone")
             a = sym_arg(s)
             if a is None or a[0] != i:
                 return chk.ob(rule, where, False, f"argument {i} of the inner {name} call is {sym_str(s)}, expected parameter #{i} unchanged", c.loc())
+    if expect_sites is not None and len(tcs) != expect_sites:
+        return chk.ob(rule, where, False, f"{len(tcs)} call sites of the inner Recorder::{name}, expected {expect_sites}", fn.loc())
     return chk.ob(rule, where, True, f"forwards to Recorder::{name} with its parameters unchanged ({len(tcs)} call site)", fn.loc())
